@@ -40,6 +40,15 @@ Section Cursor.
     rewrite app_assoc. reflexivity.
   Qed.
 
+  Lemma fill_if_at (done rest : bytes) lo hi :
+    lo = length done -> hi - lo <= length rest ->
+    @fill_if E (done ++ rest) lo hi 0%N = Ok ((done ++ zeros (hi - lo)) ++ skipn (hi - lo) rest).
+  Proof.
+    intros Hlo Hfit. unfold fill_if. destruct (Nat.ltb_spec lo hi) as [Hlt|Hge].
+    - rewrite fill_at by lia. reflexivity.
+    - replace (hi - lo) with 0 by lia. cbn [zeros repeat skipn]. rewrite app_nil_r. reflexivity.
+  Qed.
+
   Lemma with_tail_at {A} (done rest : bytes) lo (f : bytes -> res E (A * bytes)) :
     lo = length done ->
     with_tail (done ++ rest) lo f = ('(a, s') <- f rest ;; Ok (a, done ++ s')).
@@ -98,6 +107,11 @@ Proof.
   rewrite copy_into_ok by len. cbn [bind firstn skipn app].
   unfold hdr_bytes. cbn [length app]. reflexivity.
 Qed.
+
+(* UnknownBuilder: the header is written with a placeholder type, then buf[1] = type *)
+Lemma set_type_hdr pt ty padding count total (rest : bytes) :
+  @set_at werr (hdr_bytes pt padding count total ++ rest) 1 ty = Ok (hdr_bytes ty padding count total ++ rest).
+Proof. unfold hdr_bytes. cbn [app]. rewrite set_at_ok by (cbn [length]; lia). reflexivity. Qed.
 
 Lemma hdr_bytes_rfc pt padding count total :
   (count < 32)%N -> hdr_bytes pt padding count total = rfc_header pt padding count total.
